@@ -18,7 +18,9 @@
 //	racepair   [race-detector build] two goroutines hammering one pair of
 //	           public methods each (args pairs=Type:a:b+...) through hot keys,
 //	           fresh keys (growth) and a bound in force (eviction): the runner
-//	           asks for the pairs TLC predicted to race on the extracted table
+//	           asks for the pairs TLC predicted to race on the extracted table,
+//	           and (Type:a:b:dead) for the pairs it predicted to wait for each
+//	           other on one instance (a hang is a Pair event with out=timeout)
 //
 // The harness only records; TLC judges.
 package c10
@@ -48,7 +50,11 @@ func repoDir() string {
 }
 
 func Run(c *core.Ctx) error {
-	tab, err := Extract(repoDir())
+	var must []string
+	for tn := range ctors {
+		must = append(must, tn)
+	}
+	tab, err := Extract(repoDir(), must...)
 	if err != nil {
 		return err
 	}
@@ -124,7 +130,7 @@ func takes(tab *Table, tn, m string, d int) bool {
 		return false
 	}
 	for _, s := range mi.Steps {
-		if s.K == "acq" || (s.K == "call" && s.A == "" && takes(tab, tn, s.B, d-1)) {
+		if s.O == "" && (s.K == "acq" || (s.K == "call" && s.A == "" && takes(tab, tn, s.B, d-1))) {
 			return true
 		}
 	}
@@ -472,13 +478,14 @@ func runRacePairs(c *core.Ctx, tab *Table) error {
 			continue
 		}
 		f := strings.Split(ps, ":")
-		if len(f) != 3 || tab.Types[f[0]] == nil {
+		if (len(f) != 3 && !(len(f) == 4 && f[3] == "dead")) || tab.Types[f[0]] == nil {
 			return fmt.Errorf("bad pair %q", ps)
 		}
 		tn, a, b := f[0], f[1], f[2]
+		dead := len(f) == 4 // a pair TLC predicts to wait for each other: what is looked for is the hang, not a race report
 		t.Reset(gen, cas, core.Ev{"t": tn, "nondet": true})
 		out, found := "returned", 0
-		for round := 0; round < 6 && found == 0 && out == "returned"; round++ {
+		for round := 0; round < 6 && (found == 0 || dead) && out == "returned"; round++ {
 			var err error
 			if out, err = hammer(tn, a, b, round); err != nil {
 				return err
